@@ -4,6 +4,7 @@
   (`level_statement`), for every selection set inside the envelope.
 -/
 import ApiFu.C20.LemWF
+import ApiFu.C20.LemHolders
 
 namespace ApiFu.C20
 
@@ -32,7 +33,7 @@ theorem nodup_of_nodup_map {α β : Type} (f : α → β) : ∀ {l : List α}, (
     exact ⟨fun hm => h.1 (List.mem_map.mpr ⟨a, hm, rfl⟩), ih h.2⟩
 
 /-- Every enum the state marks as emitted has its declaration in the output. -/
-def EnumInv (st : St) : Prop := ∀ n ∈ st.enums, ∃ cs, Decl.enum n cs ∈ st.decls
+def EnumInv (st : St) : Prop := ∀ n ∈ st.enums, ∃ cs, Decl.enum (goTypeName n) cs ∈ st.decls
 
 /-- The statement about one selection set: the state only grows, and — once all declarations made so
     far are known to be in the final output `env` — the returned type is good. -/
@@ -40,7 +41,7 @@ def LevelStatement (S : Schema) (ft : List (Name × Name)) (env : List Decl)
     (frag : Name → Name → List JMember → Option (List LeafAt)) (subs : List Sel) : Prop :=
   ∀ n td nn st ty st', S.lookup n = some td → isComposite td = true →
     genAt S n nn (typenameFieldOf subs) st
-      (fun td' s => genSels S ft td' (typenameFieldOf subs).isSome subs [] [] s) = .ok (ty, st') →
+      (fun td' s => genSels S ft td' (holderTable td'.name subs) (typenameFieldOf subs).isSome subs [] [] s) = .ok (ty, st') →
     setOK S ft td subs = true → EnumInv st →
     (∀ d ∈ st.decls, d ∈ st'.decls) ∧ EnumInv st' ∧ (∀ tds, NamesHyp S tds → NameInv S tds st → NameInv S tds st') ∧
     ((∀ d ∈ st'.decls, d ∈ env) →
@@ -149,9 +150,9 @@ theorem genAt_scalar {S : Schema} {n nm : Name} (hl : S.lookup n = some (.scalar
 theorem genAt_enum {S : Schema} {n nm : Name} {vs : List Name} (hl : S.lookup n = some (.enum nm vs))
     (nonNull : Bool) (tnField : Option Name) (st : St) (walk : TypeDef → St → Except Err (Fields × Conds × St)) :
     genAt S n nonNull tnField st walk =
-      .ok (ptrUnless nonNull (.named nm),
+      .ok (ptrUnless nonNull (.named (goTypeName nm)),
         if st.enums.contains nm then st
-        else { st with decls := st.decls ++ [.enum nm (enumConsts nm vs)], enums := nm :: st.enums }) := by
+        else { st with decls := st.decls ++ [.enum (goTypeName nm) (enumConsts (goTypeName nm) vs)], enums := nm :: st.enums }) := by
   unfold genAt; simp only [hl]
 
 theorem keysOK_obj {ms : List JMember} (h : (Json.obj ms).keysOK = true) :
@@ -163,18 +164,18 @@ variable {S : Schema} {ft : List (Name × Name)} {env : List Decl}
   {frag : Name → Name → List JMember → Option (List LeafAt)}
 
 /-- One iteration of the generator's loop over a selection set. -/
-theorem member_step (henv : EnvOK env) (td : TypeDef) (hasTn : Bool) (s : Sel)
+theorem member_step (henv : EnvOK env) (td : TypeDef) (tbl : HolderTable) (htbl : TblLetters tbl) (hasTn : Bool) (s : Sel)
     (fields : Fields) (conds : Conds) (st : St) (f1 : Fields) (c1 : Conds) (st1 : St)
     (hIH : LevelStatement S ft env frag (subsOf s))
-    (hstep : genSel S ft td hasTn s fields conds st = .ok (f1, c1, st1))
+    (hstep : genSel S ft td tbl hasTn s fields conds st = .ok (f1, c1, st1))
     (hsel : selOK S ft td s = true)
-    (hfresh : ∀ x ∈ fields, x.key ≠ memberKey td s)
+    (hfresh : ∀ x ∈ fields, x.key ≠ memberKey tbl td s)
     (hinv : EnumInv st) :
-    ∃ e, f1 = fields ++ [e] ∧ e.key = memberKey td s ∧
-      (∀ c f, Conds.has c1 c f ↔ Conds.has conds c f ∨ FragPair ft td s c f) ∧
+    ∃ e, f1 = fields ++ [e] ∧ e.key = memberKey tbl td s ∧
+      (∀ c f, Conds.has c1 c f ↔ Conds.has conds c f ∨ FragPair ft tbl td s c f) ∧
       (∀ d ∈ st.decls, d ∈ st1.decls) ∧ EnumInv st1 ∧ (∀ tds, NamesHyp S tds → NameInv S tds st → NameInv S tds st1) ∧
       (isFieldSel s = false → td.isObject = false → hasTn = true) ∧
-      ((∀ d ∈ st1.decls, d ∈ env) → MemberGood S env frag td s e ∧
+      ((∀ d ∈ st1.decls, d ∈ env) → MemberGood S env frag tbl td s e ∧
         (FragNames ft (env.map Decl.name) → enumValuesOK S = true →
           isExported (fieldName e.key) = true ∧ tyOK (env.map Decl.name) e.ty = true ∧
           (StOK (env.map Decl.name) st → StOK (env.map Decl.name) st1))) := by
@@ -189,9 +190,9 @@ theorem member_step (henv : EnvOK env) (td : TypeDef) (hasTn : Bool) (s : Sel)
       injection h2 with h2 h3
       subst h1 h2 h3
       simp only [selOK, Bool.and_eq_true] at hsel
-      refine ⟨⟨f, .ptr (.named (f ++ n_Fragment)), true⟩, ?_, rfl, ?_, fun d hd => hd, hinv, fun _ _ h => h, ?_,
-        fun _ => ⟨⟨rfl, rfl, rfl⟩, fun hfn _ => ⟨isExported_fieldName hsel.1.1, ?_, fun h => h⟩⟩⟩
-      · exact Fields.set_of_fresh (fun x hx => by simpa [memberKey] using hfresh x hx)
+      refine ⟨⟨memberKey tbl td (.spread f), .ptr (.named (f ++ n_Fragment)), true⟩, ?_, rfl, ?_, fun d hd => hd, hinv, fun _ _ h => h, ?_,
+        fun _ => ⟨⟨rfl, rfl, rfl⟩, fun hfn _ => ⟨isExported_fieldName (memberKey_letter_spread htbl td f hsel.1.1), ?_, fun h => h⟩⟩⟩
+      · exact Fields.set_of_fresh (fun x hx => hfresh x hx)
       rotate_left 2
       · simp only [tyOK, List.contains_iff_mem]
         exact hfn f hsel.2
@@ -214,7 +215,7 @@ theorem member_step (henv : EnvOK env) (td : TypeDef) (hasTn : Bool) (s : Sel)
       | some ctd =>
         simp only [hlc] at hstep
         cases hgen : genAt S (cond.getD td.name) false (typenameFieldOf subs) st
-            (fun td' st' => genSels S ft td' (typenameFieldOf subs).isSome subs [] [] st') with
+            (fun td' st' => genSels S ft td' (holderTable td'.name subs) (typenameFieldOf subs).isSome subs [] [] st') with
         | error e => simp [hgen] at hstep
         | ok r =>
           obtain ⟨gen, st2⟩ := r
@@ -227,8 +228,8 @@ theorem member_step (henv : EnvOK env) (td : TypeDef) (hasTn : Bool) (s : Sel)
           obtain ⟨⟨hletter, _⟩, ⟨hcomp, hmok⟩, hnd⟩ := hsel
           obtain ⟨hmono, hinv', hnm, hsem⟩ := hIH _ ctd false st gen st2 hlc hcomp hgen
             (by simp [setOK, hmok, hnd]) hinv
-          refine ⟨⟨cond.getD td.name, gen, true⟩, ?_, rfl, ?_, hmono, hinv', hnm, ?_, ?_⟩
-          · exact Fields.set_of_fresh (fun x hx => by simpa [memberKey] using hfresh x hx)
+          refine ⟨⟨memberKey tbl td (.inline cond subs), gen, true⟩, ?_, rfl, ?_, hmono, hinv', hnm, ?_, ?_⟩
+          · exact Fields.set_of_fresh (fun x hx => hfresh x hx)
           · intro c f'
             rw [Conds.has_add]
             simp [FragPair]
@@ -241,7 +242,7 @@ theorem member_step (henv : EnvOK env) (td : TypeDef) (hasTn : Bool) (s : Sel)
             refine ⟨⟨rfl, rfl, ctd, tyB, hlc, by simpa [ptrUnless] using hty, hgood⟩, ?_⟩
             intro hfn hec
             obtain ⟨h1, h2⟩ := hstatic hfn hec
-            exact ⟨isExported_fieldName hletter, h1, h2⟩
+            exact ⟨isExported_fieldName (memberKey_letter_inline htbl td cond subs hletter), h1, h2⟩
   | field alias name subs =>
     have hIH : LevelStatement S ft env frag subs := hIH
     unfold genSel at hstep
@@ -275,7 +276,7 @@ theorem member_step (henv : EnvOK env) (td : TypeDef) (hasTn : Bool) (s : Sel)
         | input a => simp [hft] at hstep
       | some ftype =>
         have hex : ∃ gen st2, genAt S (shape ftype false).2.1 (shape ftype false).2.2 (typenameFieldOf subs) st
-              (fun td' st' => genSels S ft td' (typenameFieldOf subs).isSome subs [] [] st') = .ok (gen, st2) ∧
+              (fun td' st' => genSels S ft td' (holderTable td'.name subs) (typenameFieldOf subs).isSome subs [] [] st') = .ok (gen, st2) ∧
             f1 = fields.set ⟨alias.getD name, wrapSlices (shape ftype false).1 gen, false⟩ ∧ c1 = conds ∧ st1 = st2 := by
           cases td with
           | union a b => simp [TypeDef.isUnion] at hnotunion
@@ -352,25 +353,25 @@ theorem member_step (henv : EnvOK env) (td : TypeDef) (hasTn : Bool) (s : Sel)
                 injection hgen with hgen
                 injection hgen with h1 h2
                 -- the enum's declaration is in the output
-                have hdecl : (∃ cs, Decl.enum nm cs ∈ st1.decls) ∧ (∀ d ∈ st.decls, d ∈ st1.decls) ∧ EnumInv st1 ∧
+                have hdecl : (∃ cs, Decl.enum (goTypeName nm) cs ∈ st1.decls) ∧ (∀ d ∈ st.decls, d ∈ st1.decls) ∧ EnumInv st1 ∧
                     (∀ tds, NamesHyp S tds → NameInv S tds st → NameInv S tds st1) := by
                   rw [← h2]
                   by_cases hc : st.enums.contains nm = true
                   · simp only [hc, if_true]
                     exact ⟨hinv nm (by simpa using hc), fun d hd => hd, hinv, fun _ _ h => h⟩
                   · simp only [hc, Bool.false_eq_true, if_false]
-                    refine ⟨⟨enumConsts nm vs, by simp⟩, fun d hd => by simp [hd], ?_,
+                    refine ⟨⟨enumConsts (goTypeName nm) vs, by simp⟩, fun d hd => by simp [hd], ?_,
                       fun tds hN h => nameInv_add_enum hN h (Schema.lookup_mem hlb) (by simpa using hc) _⟩
                     intro m hm
                     simp only [List.mem_cons] at hm
                     rcases hm with rfl | hm
-                    · exact ⟨enumConsts m vs, by simp⟩
+                    · exact ⟨enumConsts (goTypeName m) vs, by simp⟩
                     · obtain ⟨cs, hcs⟩ := hinv m hm
                       exact ⟨cs, by simp [hcs]⟩
                 obtain ⟨⟨cs, hcs⟩, hmono, hinv', hnm⟩ := hdecl
                 refine ⟨hmono, hinv', hnm, ?_⟩
                 intro henv1
-                have hlook : lookupDecl env nm = some (.enum nm cs) := henv _ (henv1 _ hcs)
+                have hlook : lookupDecl env (goTypeName nm) = some (.enum (goTypeName nm) cs) := henv _ (henv1 _ hcs)
                 refine ⟨?_, ?_⟩
                 · intro v L hk hw
                   rw [hspec] at hw
@@ -393,7 +394,7 @@ theorem member_step (henv : EnvOK env) (td : TypeDef) (hasTn : Bool) (s : Sel)
                         have := List.all_eq_true.mp hec _ hmemS
                         simp only at this
                         simp only [declOK]
-                        exact (nodupB_iff _).mpr (enumConsts_nodup nm vs ((nodupB_iff _).mp this))
+                        exact (nodupB_iff _).mpr (enumConsts_nodup (goTypeName nm) vs ((nodupB_iff _).mp this))
               | object a b c => simp [isComposite] at hcomp'
               | iface a b => simp [isComposite] at hcomp'
               | union a b => simp [isComposite] at hcomp'
@@ -413,19 +414,19 @@ theorem member_step (henv : EnvOK env) (td : TypeDef) (hasTn : Bool) (s : Sel)
             exact ⟨isExported_fieldName_of_keyOK hkok, h1, h2⟩
 
 /-- The generator's loop over a selection set. -/
-theorem members_lemma (henv : EnvOK env) (td : TypeDef) (hasTn : Bool) :
+theorem members_lemma (henv : EnvOK env) (td : TypeDef) (tbl : HolderTable) (htbl : TblLetters tbl) (hasTn : Bool) :
     ∀ (rest : List Sel) (fields : Fields) (conds : Conds) (st : St) (fields' : Fields) (conds' : Conds) (st' : St),
       (∀ s ∈ rest, LevelStatement S ft env frag (subsOf s)) →
-      genSels S ft td hasTn rest fields conds st = .ok (fields', conds', st') →
+      genSels S ft td tbl hasTn rest fields conds st = .ok (fields', conds', st') →
       membersOK S ft td rest = true →
-      (∀ x ∈ fields, ∀ s ∈ rest, x.key ≠ memberKey td s) →
-      (rest.map (memberKey td)).Nodup →
+      (∀ x ∈ fields, ∀ s ∈ rest, x.key ≠ memberKey tbl td s) →
+      (rest.map (memberKey tbl td)).Nodup →
       EnumInv st →
       ∃ es, fields' = fields ++ es ∧
-        (∀ c f, Conds.has conds' c f ↔ Conds.has conds c f ∨ ∃ s ∈ rest, FragPair ft td s c f) ∧
+        (∀ c f, Conds.has conds' c f ↔ Conds.has conds c f ∨ ∃ s ∈ rest, FragPair ft tbl td s c f) ∧
         (∀ d ∈ st.decls, d ∈ st'.decls) ∧ EnumInv st' ∧ (∀ tds, NamesHyp S tds → NameInv S tds st → NameInv S tds st') ∧
         ((∃ s ∈ rest, isFieldSel s = false) → td.isObject = false → hasTn = true) ∧
-        ((∀ d ∈ st'.decls, d ∈ env) → Forall2 (MemberGood S env frag td) rest es ∧
+        ((∀ d ∈ st'.decls, d ∈ env) → Forall2 (MemberGood S env frag tbl td) rest es ∧
           (FragNames ft (env.map Decl.name) → enumValuesOK S = true →
             (∀ e ∈ es, isExported (fieldName e.key) = true ∧ tyOK (env.map Decl.name) e.ty = true) ∧
             (StOK (env.map Decl.name) st → StOK (env.map Decl.name) st'))) := by
@@ -445,7 +446,7 @@ theorem members_lemma (henv : EnvOK env) (td : TypeDef) (hasTn : Bool) :
   | cons s rest ih =>
     intro fields conds st fields' conds' st' hIH hgen hmok hfresh hnd hinv
     unfold genSels at hgen
-    cases hstep : genSel S ft td hasTn s fields conds st with
+    cases hstep : genSel S ft td tbl hasTn s fields conds st with
     | error e => simp [hstep] at hgen
     | ok r =>
       obtain ⟨f1, c1, st1⟩ := r
@@ -453,9 +454,9 @@ theorem members_lemma (henv : EnvOK env) (td : TypeDef) (hasTn : Bool) :
       simp only [membersOK, Bool.and_eq_true] at hmok
       simp only [List.map_cons, List.nodup_cons] at hnd
       obtain ⟨e, hf1, hek, hc1, hmono1, hinv1, hnm1, htn1, hgood1⟩ :=
-        member_step henv td hasTn s fields conds st f1 c1 st1 (hIH s List.mem_cons_self) hstep hmok.1
+        member_step henv td tbl htbl hasTn s fields conds st f1 c1 st1 (hIH s List.mem_cons_self) hstep hmok.1
           (fun x hx => hfresh x hx s List.mem_cons_self) hinv
-      have hfresh1 : ∀ x ∈ f1, ∀ s' ∈ rest, x.key ≠ memberKey td s' := by
+      have hfresh1 : ∀ x ∈ f1, ∀ s' ∈ rest, x.key ≠ memberKey tbl td s' := by
         intro x hx s' hs'
         rw [hf1] at hx
         rcases List.mem_append.mp hx with hx | hx
@@ -512,7 +513,7 @@ theorem level_statement (hS : schemaOK S = true) (henv : EnvOK env) (hfrag : Fra
   | succ k ih =>
     intro subs hk n td nn st ty st' hlk hcomp hgen hok hinv
     rw [genAt_composite hlk hcomp] at hgen
-    cases hwalk : genSels S ft td (typenameFieldOf subs).isSome subs [] [] st with
+    cases hwalk : genSels S ft td (holderTable td.name subs) (typenameFieldOf subs).isSome subs [] [] st with
     | error e => simp [hwalk] at hgen
     | ok r =>
       obtain ⟨fields, conds, st1⟩ := r
@@ -520,20 +521,21 @@ theorem level_statement (hS : schemaOK S = true) (henv : EnvOK env) (hfrag : Fra
       have hok' := hok
       simp only [setOK, Bool.and_eq_true] at hok'
       obtain ⟨hmok, hnd⟩ := hok'
-      have hndk : (subs.map (memberKey td)).Nodup := by
+      have hndk : (subs.map (memberKey (holderTable td.name subs) td)).Nodup := by
         have := keysNodup_fst hnd
-        have h2 : (subs.map fun s => fieldName (memberKey td s)) = (subs.map (memberKey td)).map fieldName := by
+        have h2 : (subs.map fun s => fieldName (memberKey (holderTable td.name subs) td s)) =
+            (subs.map (memberKey (holderTable td.name subs) td)).map fieldName := by
           simp [List.map_map, Function.comp_def]
         rw [h2] at this
         exact nodup_of_nodup_map fieldName this
       obtain ⟨es, hfs, hconds, hmono, hinv', hnm, htn, hall⟩ :=
-        members_lemma henv td (typenameFieldOf subs).isSome subs [] [] st fields conds st1
+        members_lemma henv td (holderTable td.name subs) (holderTable_letters _ _) (typenameFieldOf subs).isSome subs [] [] st fields conds st1
           (fun s hs => ih (subsOf s) (by have := sizeOf_subsOf_lt hs; omega)) hwalk hmok
           (fun x hx => by cases hx) hndk hinv
       simp only [List.nil_append] at hfs
       subst hfs
       have hlk' : S.lookup td.name = some td := by rw [Schema.lookup_name hlk]; exact hlk
-      have hconds' : ∀ c f, Conds.has conds c f ↔ ∃ s ∈ subs, FragPair ft td s c f := by
+      have hconds' : ∀ c f, Conds.has conds c f ↔ ∃ s ∈ subs, FragPair ft (holderTable td.name subs) td s c f := by
         intro c f
         rw [hconds]
         constructor
